@@ -60,6 +60,8 @@ pub struct Report {
     pub extra: Map<String, Value>,
     pub assumptions: Vec<String>,
     pub violations: Vec<Violation>,
+    /// keys of every case this run covered (enables STALE-FINDING reporting for exact-key findings)
+    pub covered_keys: Option<std::collections::HashSet<String>>,
 }
 
 impl Report {
@@ -77,6 +79,7 @@ impl Report {
             extra: Map::new(),
             assumptions: vec![],
             violations: vec![],
+            covered_keys: None,
         }
     }
     pub fn extra(&mut self, k: &str, v: Value) {
@@ -197,7 +200,11 @@ pub fn finish(ctx: &Ctx, mut rep: Report) -> i32 {
         );
     }
     for f in &findings {
-        if !matched.contains_key(&f.id) {
+        let covered = match (&rep.covered_keys, &f.key) {
+            (Some(keys), Some(k)) => keys.contains(k),
+            _ => false,
+        };
+        if covered && !matched.contains_key(&f.id) {
             println!(
                 "STALE-FINDING: property={} {} matched nothing in this run (tier {})",
                 ctx.prop,
